@@ -78,6 +78,14 @@ func writeTreeNode(st *store.Store, t *tape.Tape, o TreeOpts, name string, depth
 		names := []string{}
 		for i := 0; i < nKids; i++ {
 			cn := fmt.Sprintf("%s%d", []string{"a", "b b", "ç", "d.txt"}[i%4], i)
+			switch {
+			case i == 2 && seed%3 == 0:
+				cn = "." // a legal one-character entry name
+			case i == 3 && seed%2 == 0:
+				cn = fmt.Sprint(7 + seed%2000) // an entry whose name looks like a list index
+			case i == 1 && seed%5 == 0:
+				cn = ".."
+			}
 			child, err := writeTreeNode(st, t, o, cn, depth+1, false)
 			if err != nil {
 				return nil, err
@@ -89,7 +97,15 @@ func writeTreeNode(st *store.Store, t *tape.Tape, o TreeOpts, name string, depth
 		}
 		if kind == 1 {
 			n.Kind = "dir"
-			n.Cid = WritePlainDir(st, entries, sizes, v1)
+			if seed%4 == 1 {
+				// a directory block whose links are NOT sorted by name: decoders
+				// keep the order found in the block (only this library's writers
+				// and conformant importers sort)
+				n.Cid = WriteUnsortedDir(st, names, entries, seed)
+				n.Spec = "links not sorted by name"
+			} else {
+				n.Cid = WritePlainDir(st, entries, sizes, v1)
+			}
 		} else {
 			n.Kind = "hamt"
 			// pad with small leaf entries (not part of Children: they are raw
